@@ -12,6 +12,7 @@
 From Coq Require Import String.
 From Coq Require Import List NArith ZArith Bool Ascii Sorting.Sorted Sorting.Permutation.
 Require Import Base Mol Text Token Parse ParseProofs.
+Require ParamsSpec.   (* regenerated source constants still match what the model hard-codes *)
 Require Grammar Elements.
 Import ListNotations.
 
